@@ -19,8 +19,10 @@ def strip_sites(t):
     k = t[0]
     if k in ('elemref', 'elem', 'next') and len(t) == 3:
         return (k, strip_sites(t[1]))
+    if k in ('elemref', 'elem', 'next') and len(t) == 2:
+        return (k, strip_sites(t[1]))
     if k == 'ret':
-        return ('ret', t[2])
+        return ('ret', t[2]) if len(t) > 2 else t
     if k == 'lv':
         return t
     if k == 'closure':
@@ -91,8 +93,8 @@ def lin(t):
                 d = b[()]
                 if all(v % d == 0 for v in a.values()):
                     return {kk: v // d for kk, v in a.items()}
-                raise NotAffine("inexact division by %d of %s" % (d, show(a)))
-            raise NotAffine("division by a non-constant")
+                return {strip_sites(t): 1, (): 0}       # inexact: keep the quotient as one symbol
+            return {strip_sites(t): 1, (): 0}
         raise NotAffine("operator %s" % op)
     if k == 'len':
         return {('len', canon_coll(t[1])): 1, (): 0}
